@@ -189,13 +189,15 @@ pub fn property() -> Property {
     Property {
         id: "C13",
         level: "exploration",
-        rule: "generated: timestamp sequences of length 0..12 over base+0..30 in any order x {BoundedOutOfOrder(0..10 ms), MonotonicAscending} x {Drop, AllowedLateness(0..10), SideOutput, RecomputeWindows}; thorough adds exhaustive enumeration of all sequences of length 1..5 over a 6-value domain x 20 configurations. Oracle: watermark/late model from the statement, compared after every add_event (watermark value, monotonicity, events, side output, stats, conservation, history). Non-trivial: at least one late event and a watermark advance after it; distinct by (configuration, sequence).",
+        rule: "generated: timestamp sequences of length 0..12 over base+0..30 in any order x {BoundedOutOfOrder(0..10 ms), MonotonicAscending} x {Drop, AllowedLateness(0..10), SideOutput, RecomputeWindows}; plus exhaustive enumeration of all sequences of length 4..6 (quick) / 4..8 (thorough) over a 6-value domain x 20 configurations (every prefix is judged, so shorter sequences are covered). Oracle: watermark/late model from the statement, compared after every add_event (watermark value, monotonicity, events, side output, stats, conservation, history). Non-trivial: at least one late event and a watermark advance after it; distinct by (configuration, sequence).",
         assumptions: vec!["Periodic and Custom watermark strategies read the wall clock / do nothing and are outside the statement".into()],
         parts: vec![
-            Part { name: "random", run, quick: Budget::Random { cases: 20_000, bytes: 40 }, thorough: Budget::Random { cases: 400_000, bytes: 40 }, min_nontrivial_pct: 15 },
+            Part { name: "random", run, quick: Budget::Random { cases: 400_000, bytes: 40 }, thorough: Budget::Random { cases: 8_000_000, bytes: 40 }, min_nontrivial_pct: 15 },
             Part { name: "exh4", run, quick: Budget::Exhaustive { param: 4 }, thorough: Budget::Exhaustive { param: 4 }, min_nontrivial_pct: 0 },
-            Part { name: "exh5", run, quick: Budget::Skip, thorough: Budget::Exhaustive { param: 5 }, min_nontrivial_pct: 0 },
-            Part { name: "exh6", run, quick: Budget::Skip, thorough: Budget::Exhaustive { param: 6 }, min_nontrivial_pct: 0 },
+            Part { name: "exh5", run, quick: Budget::Exhaustive { param: 5 }, thorough: Budget::Exhaustive { param: 5 }, min_nontrivial_pct: 0 },
+            Part { name: "exh6", run, quick: Budget::Exhaustive { param: 6 }, thorough: Budget::Exhaustive { param: 6 }, min_nontrivial_pct: 0 },
+            Part { name: "exh7", run, quick: Budget::Skip, thorough: Budget::Exhaustive { param: 7 }, min_nontrivial_pct: 0 },
+            Part { name: "exh8", run, quick: Budget::Skip, thorough: Budget::Exhaustive { param: 8 }, min_nontrivial_pct: 0 },
         ],
         watchdog: true,
         replay_reps: 1,
